@@ -93,6 +93,13 @@ theorem sendMessage_HasEntry {s : State} (h : HasEntry s remote mid x) (rem : Re
 theorem sendBare_HasEntry {s : State} (h : HasEntry s remote mid x) (rem : Remote) (t : MType)
     (m : Nat) : HasEntry (sendBare s rem t m).1 remote mid x := sendInitially_HasEntry h _ _ _ _
 
+theorem fireEmptyAck_HasEntry {s : State} (h : HasEntry s remote mid x) (rem : Remote) (token : Token) :
+    HasEntry (fireEmptyAck s rem token).1 remote mid x := by
+  unfold fireEmptyAck
+  split
+  · exact h
+  · exact sendBare_HasEntry (s := dropPiggy s rem token) (HasEntry_of_recent h rfl) _ _ _
+
 theorem recvCode_HasEntry {s : State} (h : HasEntry s remote mid x) (rem : Remote) (mcLocal : Bool)
     (w : Wire) : HasEntry (recvCode s rem mcLocal w).1 remote mid x := by
   have hpr : HasEntry (processResponse s rem w).1 remote mid x :=
@@ -103,7 +110,7 @@ theorem recvCode_HasEntry {s : State} (h : HasEntry s remote mid x) (rem : Remot
   · split
     · exact h
     · split
-      · exact HasEntry_of_recent h (processRequest_recent s rem w)
+      · exact HasEntry_of_recent (fireEmptyAck_HasEntry h rem w.token) (processRequest_recent s rem w)
       · split
         · dsimp only
           split
@@ -127,7 +134,7 @@ theorem recv_HasEntry {s : State} (h : HasEntry s remote mid x) (rem : Remote) (
     · exact h
   · dsimp only
     apply recvCode_HasEntry
-    have h0 : HasEntry (if isRequest w.code = true then
+    have h0 : HasEntry (if dedupable w = true then
         { s with recent := s.recent ++ [{ remote := rem, mid := w.mid, reply := none,
                                           expiry := s.now + s.cfg.exchangeLifetime }] } else s)
         remote mid x := by
